@@ -298,6 +298,24 @@ pub fn build_body(mut b: ConfigurationBuilder<P>, body: &Value, path: &[u32], ct
                 |bb| build_body(bb, &st["b"], &child(&p, &[1]), ctx),
                 |bb| build_body(bb, &st["e"], &child(&p, &[2]), ctx),
             ),
+            "scope" if st["v"].as_str() == Some("seed") => {
+                // Scope::new_with: own state initialiser (child gets U := 5) and merge function (caller gets K0 := 5 if
+                // the child it is handed holds U = 5 in its own scope)
+                let inner = build_body(Configuration::builder(), &st["b"], &child(&p, &[1]), ctx).build_component();
+                b.do_(mahf::components::control_flow::Scope::new_with(
+                    |state| {
+                        state.insert(U(5));
+                        Ok(())
+                    },
+                    inner,
+                    |state, child| {
+                        if child.contains_at_top::<U>() && child.get_value::<U>() == 5 {
+                            state.insert(K0(5));
+                        }
+                        Ok(())
+                    },
+                ))
+            }
             "scope" => b.scope_(|bb| build_body(bb, &st["b"], &child(&p, &[1]), ctx)),
             other => panic!("unknown statement kind {other}"),
         };
@@ -450,7 +468,8 @@ fn random_body_with(rng: &mut impl Rng, budget: &mut i32, depth: u32, variants: 
             4..=5 => json!({"k": "while", "v": "-", "b": random_body_with(rng, budget, depth + 1, variants), "e": []}),
             6 => json!({"k": "if", "v": "-", "b": random_body_with(rng, budget, depth + 1, variants), "e": []}),
             7 => json!({"k": "ifelse", "v": "-", "b": random_body_with(rng, budget, depth + 1, variants), "e": random_body_with(rng, budget, depth + 1, variants)}),
-            _ => json!({"k": "scope", "v": "-", "b": random_body_with(rng, budget, depth + 1, variants), "e": []}),
+            8 => json!({"k": "scope", "v": "-", "b": random_body_with(rng, budget, depth + 1, variants), "e": []}),
+            _ => json!({"k": "scope", "v": "seed", "b": random_body_with(rng, budget, depth + 1, variants), "e": []}),
         });
     }
     Value::Array(body)
@@ -490,7 +509,8 @@ pub fn main(args: &Args) -> usize {
                             json!({"tk": tk, "src": src})
                         })
                         .collect();
-                    run_case(&mut out, run, &json!({"prog": prog, "script": script, "fault": ["none", 0], "rules": rules, "rootit": 0}));
+                    let rootit = [0, 0, 3][rng.gen_range(0..3)];
+                    run_case(&mut out, run, &json!({"prog": prog, "script": script, "fault": ["none", 0], "rules": rules, "rootit": rootit}));
                     continue;
                 }
                 let prog = random_body(&mut rng, &mut budget, 0);
@@ -503,7 +523,9 @@ pub fn main(args: &Args) -> usize {
                     let ph = ["init", "require", "exec"][rng.gen_range(0..3)];
                     json!([ph, rng.gen_range(1..=12)])
                 };
-                run_case(&mut out, run, &json!({"prog": prog, "script": script, "fault": fault}));
+                // the caller's state may already hold a pass counter (a value left by an earlier run, or its own)
+                let rootit = [crate::util::NOVAL, crate::util::NOVAL, 0, 3][rng.gen_range(0..4)];
+                run_case(&mut out, run, &json!({"prog": prog, "script": script, "fault": fault, "rootit": rootit}));
             }
         }
         other => panic!("unknown mode {other}"),
